@@ -17,15 +17,19 @@
       cache/memory/cache.go (+ ttlcache v3.3.0 item.go)     Get/Set
       cache/redis/cache.go (rueidis Px = Milliseconds())    Get/Set
 
-    The three recorded defects are kept in the model behind the switches
-    [fx1 fx2 fx3] ([false] = the code of the pinned tree, [true] = the code
+    The recorded defects are kept in the model behind the switches
+    [fx1 .. fx5] ([false] = the code of the pinned tree, [true] = the code
     after fixes/C10-F<n>.diff). *)
 From HV Require Export Base.Prelude Base.Time.
 Open Scope Z_scope.
 
-Record fixes := { fx1 : bool; fx2 : bool; fx3 : bool }.
-Definition fx_none := {| fx1 := false; fx2 := false; fx3 := false |}.
-Definition fx_all := {| fx1 := true; fx2 := true; fx3 := true |}.
+Record fixes := { fx1 : bool; fx2 : bool; fx3 : bool; fx4 : bool; fx5 : bool }.
+Definition fx_none := {| fx1 := false; fx2 := false; fx3 := false; fx4 := false; fx5 := false |}.
+Definition fx_all := {| fx1 := true; fx2 := true; fx3 := true; fx4 := true; fx5 := true |}.
+(** /repo at b37641c: C10-F1/F2/F3 repaired (637ae67, c971513, e0dc5e2); C10-F4 (RFC 7234
+    current age / invalid Expires ignored) and C10-F5 (cache keys of the three
+    authenticators and of client credentials do not contain the ttl) are open *)
+Definition fx_repo := {| fx1 := true; fx2 := true; fx3 := true; fx4 := false; fx5 := false |}.
 
 Inductive mech := MIntro | MJwtKey | MGeneric | MClientCred | MJwtFin | MRemote | MCtx.
 
@@ -156,6 +160,51 @@ Definition http_store_decision (f : fixes) (cachable : bool) (expires : option Z
     | None => None
     | Some e => let ttl := e - now2 in
                 if fx2 f && (ttl <=? 0) then None else Some ttl
+    end.
+
+(** *** from header values to the store decision
+
+    [hvals]: the header values of a response as an independent reader of RFC
+    7234 sees them (the driver parses them itself; instants and durations in ns,
+    Date/Expires are whole seconds).  [lib_expires]: what pquerna/cachecontrol
+    v0.2.0 hands to [cacheResponse] for a private cache: ITS OWN clock reading
+    plus max-age, else plus (Expires - Date), an Expires without Date as it is;
+    an unparsable Expires (`0`, `-1`) counts as absent; Age and the distance of
+    Date from now are ignored.  C10-F4 / [fx4]: the repaired [cacheResponse]
+    subtracts the current age (RFC 7234 4.2.3: max of the Age header and of
+    now - Date, whole seconds) and does not store a response whose only
+    lifetime information is an unparsable Expires. *)
+Record hvals := {
+  hv_maxage : option Z;            (* Cache-Control: max-age *)
+  hv_expires : option (option Z);  (* Expires: None absent, Some None unparsable, Some (Some t) *)
+  hv_date : option Z;              (* Date *)
+  hv_age : Z                       (* Age, 0 if absent *)
+}.
+
+Definition lib_expires (h : hvals) (now1 : Z) : option Z :=
+  match hv_maxage h with
+  | Some m => Some (now1 + m)
+  | None =>
+      match hv_expires h with
+      | Some (Some x) => Some (match hv_date h with Some d => now1 + (x - d) | None => x end)
+      | _ => None
+      end
+  end.
+
+Definition bad_expires (h : hvals) : bool :=
+  match hv_maxage h, hv_expires h with None, Some None => true | _, _ => false end.
+
+Definition current_age (h : hvals) (now : Z) : Z :=
+  Z.max (hv_age h) (match hv_date h with Some d => Z.max 0 (secs (unix now) - d) | None => 0 end).
+
+Definition http_store_hdr (f : fixes) (cachable : bool) (h : hvals) (dflt now1 now2 : Z) : option Z :=
+  if fx4 f && bad_expires h then None
+  else
+    match http_store_decision f cachable (lib_expires h now1) dflt now1 now2 with
+    | Some ttl =>
+        if fx4 f then let t := ttl - current_age h now2 in if t <=? 0 then None else Some t
+        else Some ttl
+    | None => None
     end.
 
 (** since 12fdf68: only GET and HEAD requests are looked up ([cachedResponse])
